@@ -1,5 +1,6 @@
 import RedactVerif.Props.C01
 import RedactVerif.Props.FactsConsts
+import RedactVerif.Props.FactsSkelBuffer
 /-
 C10 — escaping removes every marker from arbitrary bytes and nothing else.
 
